@@ -132,6 +132,34 @@ def samename_case(ctx, case):
                       'samename_case', case, expected=[c.hex() for c in cands], observed={k: v for k, v in outs.items()})
 
 
+def casevariant_case(ctx, case):
+    """a file whose name differs from the included one ONLY IN CASE sits in a directory that is searched earlier; the exactly named file sits in a later one.
+    `include F` names F: the other file may not be taken (case = dict(written, twin, where)); an include of the twin's own name must still find the twin"""
+    asm = kernel.boot()
+    base = trees.fresh_dir(os.path.join(kernel.scratch('_c14'), 'case'))
+    src, inc, inc2 = (os.path.join(base, d) for d in ('src', 'inc', 'inc2'))
+    for d in (src, inc, inc2):
+        os.makedirs(d)
+    written, twin = case['written'], case['twin']
+    exact_dir = src if case['where'] == 'beside' else inc2
+    open(os.path.join(exact_dir, written), 'w').write('addi x8, x8, 1\n')
+    open(os.path.join(inc, twin), 'w').write('addi x9, x9, 2\n')
+    main = os.path.join(src, 'main.asm')
+    want = assemble(asm, 'db 1\nalign 4\naddi x8, x8, 1\ndw 7\n')[1]
+    want_twin = assemble(asm, 'db 1\nalign 4\naddi x9, x9, 2\ndw 7\n')[1]
+    for name, expect in ((written, want), (twin, want_twin)):
+        open(main, 'w').write('db 1\nalign 4\ninclude %s\ndw 7\n' % name)
+        for cwdname, d in (('src', src), ('inc', inc), ('slash', '/')):
+            with trees.cwd(d):
+                ctx.count('runs')
+                got = assemble(asm, main, include_dirs=[inc, inc2])
+            if got[1] != expect:
+                ctx.violation('%s:casevariant:%s' % (PROP, 'refused' if got[0] != 'ok' else 'other-file'), 'include %s with %s in an earlier search directory and %s %s: %s'
+                              % (name, twin, written, case['where'], got[1] if got[0] != 'ok' else got[1].hex()), 'casevariant_case', case, expected=expect, observed=got[1])
+                return
+    ctx.count('trees')
+
+
 def definitions_case(ctx, case):
     """--include-definitions: the bundled definition files are found from any working directory"""
     asm = kernel.boot()
@@ -190,7 +218,7 @@ def subprocess_case(ctx, case):
     ctx.count('trees')
 
 
-DRIVERS = {'tree_case': tree_case, 'samename_case': samename_case, 'definitions_case': definitions_case, 'subprocess_case': subprocess_case}
+DRIVERS = {'tree_case': tree_case, 'samename_case': samename_case, 'definitions_case': definitions_case, 'subprocess_case': subprocess_case, 'casevariant_case': casevariant_case}
 
 
 def chains(depth, wheres, positions, styles):
@@ -243,6 +271,8 @@ def run(tier, seed, t0):
         cases.append(dict(tree=t, cwds=['other'], shadow=True))
     m = kernel.explore(tree_task, list(kernel.chunks(cases, 40)))
     extra = [('samename_case', dict(rel=r)) for r in ('x.asm', 'sub/x.asm')]
+    extra += [('casevariant_case', dict(written=w, twin=t, where=wh)) for w, t in (('regs.asm', 'REGS.asm'), ('Regs.asm', 'regs.asm'), ('chip.ASM', 'chip.asm'), ('gd32vf103.asm', 'GD32VF103.asm'))
+              for wh in ('beside', 'later-i')]
     extra += [('definitions_case', dict(file=f, const=c)) for f, c in (('GD32VF103.asm', 'RCU_BASE_ADDR'), ('FE310-G002.asm', 'GPIO_BASE_ADDR'))]
     sub_trees = list(chains(2, ['.', 'sub', 'inc'], ['middle'], ['plain', 'dquote']))[:: (6 if tier == 'quick' else 1)]
     extra += [('subprocess_case', dict(tree=t)) for t in sub_trees]
